@@ -62,6 +62,7 @@ pub fn judge_c01(m: &MMsg, p: &Probe) -> Judge {
 }
 
 pub fn run_c01(ctx: &Ctx) {
+    ctx.enable_traced_pass(4);
     ctx.set_rule(
         "proptest-generated model messages (operation group first, 0-5 further groups incl. repeats/empties, 0-8 attributes per group, all 22 value kinds, sets homogeneous/mixed, collections nested up to depth 6, boundary lengths 0/255/256/65534/65535 injected, payloads 0 B-64 KiB) built through the public API, serialised with into_read(), parsed with both parsers and compared with the model in canonical form; plus 6 deterministic shapes (wide set, set of collections, distinct attributes, members, groups, mixed-syntax set) at 16 boundary counts from 255 to 65537. Non-trivial = contains a mixed-syntax set, multi-valued collection member, collection nested >=2, set of collections, >=3 groups, repeated group kind, empty group, boundary length or non-empty payload; distinct by hash of the model message.",
     );
@@ -203,6 +204,7 @@ pub fn judge_c03(m: &MMsg, p: &Probe, builds: usize) -> Judge {
 }
 
 pub fn run_c03(ctx: &Ctx) {
+    ctx.enable_traced_pass(4);
     ctx.set_rule(
         "proptest-generated model messages (domain of C01), each built K times from scratch (fresh randomly keyed maps; K=8 quick, 16 thorough; every build counts as one evaluation); each distinct encoding is decoded by the strict independent RFC 8010 decoder, re-encoded canonically (must reproduce the bytes), compared attribute-by-attribute (tag, name, every value body, modulo attribute and member order) with the reference encoding of the model, and interpreted back to the model's content. Non-trivial = uses a value kind outside {integer, keyword} or a set/collection; distinct by hash of the model message.",
     );
